@@ -1052,6 +1052,7 @@ func (pc *PeerConnection) setDescription(sd *SessionDescription, op stateChangeO
 				nextState, err = checkNextSignalingState(cur, SignalingStateStable, setLocal, sd.Type)
 				if err == nil {
 					pc.pendingLocalDescription = nil
+					pc.pendingRemoteDescription = nil
 				}
 			// have-remote-offer->SetLocal(pranswer)->have-local-pranswer
 			case SDPTypePranswer:
@@ -1087,6 +1088,7 @@ func (pc *PeerConnection) setDescription(sd *SessionDescription, op stateChangeO
 				nextState, err = checkNextSignalingState(cur, SignalingStateStable, setRemote, sd.Type)
 				if err == nil {
 					pc.pendingRemoteDescription = nil
+					pc.pendingLocalDescription = nil
 				}
 			// have-local-offer->SetRemote(pranswer)->have-remote-pranswer
 			case SDPTypePranswer:
@@ -1124,6 +1126,11 @@ func (pc *PeerConnection) setDescription(sd *SessionDescription, op stateChangeO
 func (pc *PeerConnection) SetLocalDescription(desc SessionDescription) error {
 	if pc.isClosed.Load() {
 		return &rtcerr.InvalidStateError{Err: ErrConnectionClosed}
+	}
+
+	// A rollback carries no session description: its SDP text, if any, is ignored (JSEP 4.1.10.2).
+	if desc.Type == SDPTypeRollback {
+		return pc.setDescription(&desc, stateChangeOpSetLocal)
 	}
 
 	haveLocalDescription := pc.currentLocalDescription != nil
@@ -1197,6 +1204,11 @@ func (pc *PeerConnection) LocalDescription() *SessionDescription {
 func (pc *PeerConnection) SetRemoteDescription(desc SessionDescription) error {
 	if pc.isClosed.Load() {
 		return &rtcerr.InvalidStateError{Err: ErrConnectionClosed}
+	}
+
+	// A rollback carries no session description: its SDP text, if any, is ignored (JSEP 4.1.10.2).
+	if desc.Type == SDPTypeRollback {
+		return pc.setDescription(&desc, stateChangeOpSetRemote)
 	}
 
 	isRenegotiation := pc.currentRemoteDescription != nil
